@@ -62,6 +62,7 @@ def typestate_fn(chk, fn, idx_name, rule, key):
 def run(chk, facts, tier):
     chk.rule('channel-index-validated', 'variable_advertising_channel_map: at every exit of next_channel/add_channel/remove_channel (non-empty map) the current channel index was validated '
              'against map_ (edge map_ & (1 << index) != 0, or = first_channel_index())', floor=3)
+    chk.rule('map-change-restarts-sequence', 'add_channel / remove_channel store the new map and then re-select first_channel_index() (remove: unless the map became empty), so the next advertising event covers every enabled channel in ascending order', floor=2)
     chk.rule('no-enabled-channel-skipped', 'variable_advertising_channel_map::next_channel changes the index only by ++ and by a wrap to first_channel_index() that is control dependent on (1 << index) > map_ (no enabled channel at or above the index)', floor=1)
     chk.rule('first-index-loop', 'first_channel_index() returns the loop variable whose loop exits exactly on (map_ & (1 << result)) != 0, starting from 0 and stepping by 1', floor=1)
     chk.rule('fixed-map-cycle', 'all_advertising_channel_map::next_channel maps last -> first and c -> c + 1 otherwise', floor=1)
@@ -77,6 +78,24 @@ def run(chk, facts, tier):
             if r is None:
                 # remove_channel with an empty map leaves the index untouched: outside the property's quantifier (non-empty maps)
                 chk.instance('channel-index-validated', fn, name + ' never stores the index', name.startswith('remove') or name.startswith('add'), 'index never updated', key=name)
+
+    # a run-time change of the map restarts the channel sequence at the first enabled channel (events stay aligned: each event covers every enabled channel)
+    for name, may_be_empty in (('add_channel_to_advertising_channel_map', False), ('remove_channel_from_advertsing_channel_map', True)):
+        for fn in variants(facts, VMAP + name, chk):
+            ms = [st for tgt, op, val, st in stores(fn.body) if target_name(tgt) == MAP]
+            fs = [st for tgt, op, val, st in stores(fn.body) if target_name(tgt) == IDX and op == '=' and val is not None and strip_casts(val).is_call('first_channel_index')]
+            ok = len(ms) == 1 and len(fs) == 1 and precedes(fn, ms[0], fs[0])
+            why = 'the current channel is not re-selected after the map changed'
+            if ok:
+                ats = guard_atoms(fn, fs[0])
+                if may_be_empty:
+                    ok = len(ats) == 1 and has_atom(ats, lambda n: is_name(n, MAP), {'!='}, lambda o: cval(o) == 0)
+                else:
+                    ok = not ats
+                if not ok:
+                    why = ('after the map change the sequence restarts at the first enabled channel only under (%s): otherwise the running position is kept, the next advertising event starts in the middle of the new map and leaves out the enabled channels below it' %
+                           ' && '.join('%s %s %s' % (l.text() if not isinstance(l, int) else l, o, r.text() if not isinstance(r, int) else r) for l, o, r in ats))
+            chk.instance('map-change-restarts-sequence', fn, '%s: map_ updated, then current_channel_index_ = first_channel_index()%s' % (name, ' if the map is not empty' if may_be_empty else ''), ok, '' if ok else why, key=name)
 
     # no enabled channel is skipped: the index moves forward one position at a time and wraps only when no higher channel is enabled
     for fn in variants(facts, VMAP + 'next_channel', chk):
